@@ -48,6 +48,11 @@ DKey(h) == IF Alias THEN txk[h] ELSE <<h, txk[h]>>
 Range(a, b) == [i \in 1 .. (b - a + 1) |-> a + i - 1]
 NonEmptyIn(a, b) == SelectSeq(Range(a, b), LAMBDA h : h >= IH /\ ~IsEmpty(h))
 Max(a, b) == IF a > b THEN a ELSE b
+\* control points "acknowledged n blobs, watermark not yet written" (the count is part of the name; strings only, so that
+\* control points stay comparable)
+BookName(n) == "book" \o ToString(n)
+BookPcs == {BookName(i) : i \in 1 .. 64}
+BookN(pc) == CHOOSE i \in 1 .. 64 : BookName(i) = pc
 
 Init ==
     /\ height = IH - 1 /\ txk = [h \in IH .. MaxH |-> "none"]
@@ -91,12 +96,20 @@ AttemptH(n, ack) ==
     /\ accH' = accH \cup {remH[i] : i \in 1 .. n}
     /\ hist' = H([a |-> "replyH", k |-> "", r |-> IF ack THEN "ack" ELSE "noack", n |-> n])
     /\ IF ack
-          THEN /\ markH' = markH \cup {remH[i] : i \in 1 .. n}        \* postSubmit: marks, then watermark
-               /\ wmH' = Max(wmH, remH[n]) /\ dwmH' = Max(dwmH, remH[n])
-               /\ remH' = SubSeq(remH, n + 1, Len(remH))
-               /\ pcH' = IF n = Len(remH) THEN "idle" ELSE "try"
+          THEN /\ markH' = markH \cup {remH[i] : i \in 1 .. n}        \* postSubmit, first half: the marks (visible to the
+               /\ pcH' = BookName(n)                                      \* inclusion loop at once); the watermark follows in BookH
+               /\ UNCHANGED <<wmH, dwmH, remH>>
           ELSE /\ UNCHANGED <<markH, wmH, dwmH, remH, pcH>>
     /\ UNCHANGED <<height, txk, wmD, dwmD, accD, markD, fileH, fileD, incl, dincl, finalLog, pcD, pcI, remD, crashes, refused, up>>
+
+\* postSubmit, second half: the watermark is raised and written (one durable write); the pass goes on or ends
+BookH ==
+    /\ up /\ pcH \in BookPcs
+    /\ LET n == BookN(pcH) IN
+          /\ wmH' = Max(wmH, remH[n]) /\ dwmH' = Max(dwmH, remH[n])
+          /\ remH' = SubSeq(remH, n + 1, Len(remH))
+          /\ pcH' = IF n = Len(remH) THEN "idle" ELSE "try"
+    /\ UNCHANGED <<height, txk, wmD, dwmD, accH, accD, markH, markD, fileH, fileD, incl, dincl, finalLog, pcD, pcI, remD, replies, crashes, refused, up, hist>>
 
 GiveUpH ==   \* attempts exhausted / cancellation: the pass ends, the rest is retried by the next pass
     /\ up /\ pcH = "try" /\ pcH' = "idle" /\ remH' = <<>>
@@ -126,11 +139,18 @@ AttemptD(n, ack) ==
     /\ hist' = H([a |-> "replyD", k |-> "", r |-> IF ack THEN "ack" ELSE "noack", n |-> n])
     /\ IF ack
           THEN /\ markD' = markD \cup {DKey(remD[i]) : i \in 1 .. n}
-               /\ wmD' = Max(wmD, remD[n]) /\ dwmD' = Max(dwmD, remD[n])
-               /\ remD' = SubSeq(remD, n + 1, Len(remD))
-               /\ pcD' = IF n = Len(remD) THEN "idle" ELSE "try"
+               /\ pcD' = BookName(n)
+               /\ UNCHANGED <<wmD, dwmD, remD>>
           ELSE /\ UNCHANGED <<markD, wmD, dwmD, remD, pcD>>
     /\ UNCHANGED <<height, txk, wmH, dwmH, accH, markH, fileH, fileD, incl, dincl, finalLog, pcH, pcI, remH, crashes, refused, up>>
+
+BookD ==
+    /\ up /\ pcD \in BookPcs
+    /\ LET n == BookN(pcD) IN
+          /\ wmD' = Max(wmD, remD[n]) /\ dwmD' = Max(dwmD, remD[n])
+          /\ remD' = SubSeq(remD, n + 1, Len(remD))
+          /\ pcD' = IF n = Len(remD) THEN "idle" ELSE "try"
+    /\ UNCHANGED <<height, txk, wmH, dwmH, accH, accD, markH, markD, fileH, fileD, incl, dincl, finalLog, pcH, pcI, remH, replies, crashes, refused, up, hist>>
 
 GiveUpD ==
     /\ up /\ pcD = "try" /\ pcD' = "idle" /\ remD' = <<>>
@@ -161,7 +181,7 @@ Crash ==
 \* an orderly stop: the loops are joined, the caches (DA-included marks) are written to disk
 \* (it draws on the same budget as crashes, so that exhaustive runs stay bounded)
 CleanStop ==
-    /\ up /\ crashes < MaxCrashes
+    /\ up /\ crashes < MaxCrashes /\ pcH \notin BookPcs /\ pcD \notin BookPcs     \* a postSubmit in progress completes before the loops are joined
     /\ crashes' = crashes + 1 /\ up' = FALSE
     /\ fileH' = markH /\ fileD' = markD
     /\ hist' = H([a |-> "stop", k |-> "", r |-> "", n |-> 0])
@@ -179,14 +199,14 @@ Restart ==
 
 Next ==
     \/ \E k \in TxKinds \cup {"none"} : Produce(k)
-    \/ Refuse \/ SnapH \/ GiveUpH \/ SnapD \/ GiveUpD
+    \/ Refuse \/ SnapH \/ GiveUpH \/ SnapD \/ GiveUpD \/ BookH \/ BookD
     \/ \E n \in 0 .. 3, ack \in BOOLEAN : AttemptH(n, ack) \/ AttemptD(n, ack)
     \/ Finalize \/ Persist \/ Publish \/ Crash \/ CleanStop \/ Restart
 
 Spec == Init /\ [][Next]_vars
 
 \* DA eventually accepts and acknowledges everything; the loops keep ticking
-Fair == /\ WF_vars(SnapH) /\ WF_vars(SnapD) /\ WF_vars(Finalize) /\ WF_vars(Persist) /\ WF_vars(Publish) /\ WF_vars(Restart)
+Fair == /\ WF_vars(BookH) /\ WF_vars(BookD) /\ WF_vars(SnapH) /\ WF_vars(SnapD) /\ WF_vars(Finalize) /\ WF_vars(Persist) /\ WF_vars(Publish) /\ WF_vars(Restart)
         /\ SF_vars(\E n \in 1 .. 3 : AttemptH(n, TRUE) /\ n = Len(remH))
         /\ SF_vars(\E n \in 1 .. 3 : AttemptD(n, TRUE) /\ n = Len(remD))
         /\ WF_vars(\E k \in TxKinds \cup {"none"} : Produce(k))
